@@ -1215,7 +1215,11 @@ func (s *Sim) exec(t *stask) {
 				} else {
 					c.recvq = append(c.recvq, w)
 				}
-				t.parkedOn += fmt.Sprintf("chan#%d ", c.id)
+				if w.send {
+					t.parkedOn += fmt.Sprintf("send:chan#%d ", c.id)
+				} else {
+					t.parkedOn += fmt.Sprintf("chan#%d ", c.id)
+				}
 			}
 			t.parkedOn += ")"
 			s.park(t)
